@@ -282,19 +282,18 @@ def observations(paths):
 
 
 STATIC_OBSERVATIONS = [
-    "Handle.KeysetInfo(), Handle.String() and (with annotations set) Manager.Handle() PANIC for a handle that holds a key "
-    "without a proto serialization, e.g. an AES-GCM key with a 16-byte IV (aesgcm.NewParameters accepts it; the serializer "
-    "refuses it since /repo commit dac76e9): handle.go KeysetInfo `panic(err)`. Reproduced by a throw-away program; reported "
-    "to the lead; such keys are not generated by the X04 driver.",
     "(&keyset.Manager{}).AddKey panics (assignment to entry in nil map); Add on it returns the documented error. "
-    "nil *Handle: KeysetInfo()/String() panic (nil dereference).",
+    "nil *Handle: KeysetInfo()/String() panic (nil dereference). Reproduced by a throw-away program; not exercised by the driver.",
+    "One symmetric key in four of the driver's population is an AES-GCM key with a 16-byte IV (no exact proto form, C12 known "
+    "finding): while /repo's serializer refused such keys (commit dac76e9, withdrawn by 19e006d) Handle.KeysetInfo(), String() "
+    "and Manager.Handle() with annotations panicked for them; a panic in any call is a VIOLATION of this check.",
 ]
 
 
 # ------------------------------------------------------------------ the check
 def expect_violation(ctx, cfg, prop, stage):
     """A configuration whose violation is EXPECTED: the deviation must be found, by the named action."""
-    r = ctx.tlc("MC_KeysetHandle", cfg, workers=2, heap="4g")
+    r = ctx.tlc("MC_KeysetHandle", cfg, workers=1, heap="4g")
     if r.error:
         ctx.infra("%s: %s" % (stage, r.error))
     last = (r.last_state or {}).get("res", {})
@@ -328,22 +327,28 @@ def run(ctx):
 
     # ---------------- (M)
     props_note = "C11 invariants + action properties, PrimaryNeverLost, AddOptsPost, AccessorsPure, DerivedHandlesAgree, NoSecretsGuard"
-    mc = [("MC_KeysetHandle_opts_quick", "M:AddKeyWithOpts x C11 ops, ID=1..3, <=2 entries, <=1 handle, 40 option lists"),
-          ("MC_KeysetHandle_two", "M:two managers (isolation), ID=1..2, <=2 entries, 2 kinds of material"),
+    mc = [("MC_KeysetHandle_dev_rest", "M:AddKeyWithOpts (40 option lists, incl. the deviation) x C11 ops, ID=1..3, <=2 entries, <=1 handle"),
+          ("MC_KeysetHandle_two", "M:two managers (isolation), ID=1..2, <=1 entry"),
+          ("MC_KeysetHandle_mix_quick", "M:3 kinds of material x annotations, ID=1..2, <=1 entry, <=2 handles"),
           ("MC_KeysetHandle_table_quick", "M:AddKeyWithOpts decision table, every option list <= 2"),
-          ("MC_KeysetHandle_htable_quick", "M:handle API table, keysets <= 2 keys over ID=1..2"),
-          ("MC_KeysetHandle_dev_rest", "M:with the deviation action: every clause except the two it violates")]
+          ("MC_KeysetHandle_htable_quick", "M:handle API table, keysets <= 2 keys over ID=1..2")]
     if ctx.thorough:
-        mc += [("MC_KeysetHandle_opts", "M:AddKeyWithOpts x C11 ops, ID=1..3, <=3 entries, <=1 handle, 40 option lists"),
-               ("MC_KeysetHandle_mix", "M:3 kinds of material x annotations, ID=1..2, <=2 entries, <=2 handles"),
-               ("MC_KeysetHandle_table", "M:AddKeyWithOpts decision table, every option list <= 3"),
-               ("MC_KeysetHandle_htable", "M:handle API table, keysets <= 2 keys over ID=1..3, 3 kinds of material")]
-    else:
-        mc += [("MC_KeysetHandle_mix_quick", "M:3 kinds of material x annotations, ID=1..2, <=1 entry, <=2 handles")]
-    if not ctx.replay:
-        with cf.ThreadPoolExecutor(max_workers=4) as ex:
-            futs = [ex.submit(ctx.model_check, "MC_KeysetHandle", cfg, stage=st, workers=2, heap="6g", timeout=3000) for cfg, st in mc]
-            futs += [ex.submit(expect_violation, ctx, "MC_KeysetHandle_dev_err", "C11_ErrLeavesUnchanged",
+        mc = [("MC_KeysetHandle_opts", "M:AddKeyWithOpts (40 option lists, no deviation) x C11 ops, ID=1..3, <=3 entries, <=1 handle"),
+              ("MC_KeysetHandle_dev_rest3", "M:AddKeyWithOpts (85 option lists, incl. the deviation) x C11 ops, ID=1..3, <=3 entries, <=1 handle"),
+              ("MC_KeysetHandle_mix", "M:2 kinds of material x annotations, ID=1..2, <=2 entries, <=2 handles"),
+              ("MC_KeysetHandle_mix1", "M:3 kinds of material x 3 annotation values, ID=1..2, <=2 entries, <=1 handle"),
+              ("MC_KeysetHandle_two2", "M:two managers (isolation), ID=1..2, <=2 entries"),
+              ("MC_KeysetHandle_table", "M:AddKeyWithOpts decision table, every option list <= 3"),
+              ("MC_KeysetHandle_htable", "M:handle API table, keysets <= 2 keys over ID=1..3, 3 kinds of material")] + mc[:3]
+    skip_m = bool(os.environ.get("VERIF_X04_SKIP_M")) and bool(os.environ.get("VERIF_REPO"))
+    if skip_m:
+        ctx.log("NOTE: (M) skipped (mutation trial against VERIF_REPO: the model-checking stage does not involve the code; not evidence)")
+    if not ctx.replay and not skip_m:
+        with cf.ThreadPoolExecutor(max_workers=8) as ex:
+            # the largest configuration gets several workers (vlib runs one multi-worker TLC at a time), the others one each
+            futs = [ex.submit(ctx.model_check, "MC_KeysetHandle", cfg, stage=st, workers=(6 if i == 0 else 1), heap="6g", timeout=3400)
+                    for i, (cfg, st) in enumerate(mc)]
+            futs += [ex.submit(expect_violation, ctx, "MC_KeysetHandle_dev_err", "ErrLeavesUnchanged",
                                "M:EXPECTED violation of C11 ErrLeavesUnchanged by AddKeyWithOpts"),
                      ex.submit(expect_violation, ctx, "MC_KeysetHandle_dev_primary", "PrimaryNeverLost",
                                "M:EXPECTED violation of PrimaryNeverLost by AddKeyWithOpts")]
